@@ -103,3 +103,67 @@ Lemma cache_entry_witness :
   (exists b, fst (cache_stripped_c (is_dnssec_obj [2%N]) (snd r) wc_msg) = LOk b /\
              u16_at b 6 = 1%N /\ u16_at b 10 = 1%N).
 Proof. vm_compute. split; eexists; repeat split; reflexivity. Qed.
+
+(* ---- WriteMsg and the negative-proof fingerprint ---- *)
+
+Lemma try_pack_c_msg : forall st m, tp_msg name body dict (try_pack_c st m) = m.
+Proof.
+  intros st m. unfold try_pack_c.
+  apply (message_untouched_l name body dict [] [] cm_len_c pack_name_c pack_rr_c q_len_c rr_len_c).
+Qed.
+
+Lemma try_pack_c_keeps_inv : forall st m, Inv_c st -> Inv_c (tp_state name body dict (try_pack_c st m)).
+Proof.
+  intros st m H. unfold try_pack_c, try_pack.
+  apply (try_pack_keeps_inv name body dict [] [] cm_len_c pack_name_c pack_rr_c q_len_c rr_len_c
+           pack_name_c_in_place pack_rr_c_in_place). exact H.
+Qed.
+
+(* whichever way the reply leaves — raw bytes from the pooled packer or the message for the
+   transport's own library pack — its wire form is the library's Pack of the message, the message
+   the transport gets is the caller's, and the pool stays within its invariant *)
+Lemma reply_wire_form_l : forall direct internal st m, Inv_c st ->
+  wire_form (fst (write_msg_c direct internal st m)) = fst (lib_pack_c m) /\
+  (forall m', fst (write_msg_c direct internal st m) = SentMsg m' -> m' = m) /\
+  (forall b, fst (write_msg_c direct internal st m) = SentBytes b -> direct = true /\ internal = false) /\
+  Inv_c (snd (write_msg_c direct internal st m)).
+Proof.
+  intros direct internal st m H. unfold write_msg_c.
+  destruct (direct && negb internal) eqn:Hg.
+  - destruct (tp_bytes name body dict (try_pack_c st m)) as [b|] eqn:Hb; cbn [fst snd wire_form].
+    + destruct (concrete_trypack_is_libpack_l st m b H Hb) as (m' & Hl).
+      rewrite Hl. cbn [fst]. split; [reflexivity|]. split; [discriminate|].
+      split; [|apply try_pack_c_keeps_inv; exact H].
+      intros _ _. destruct direct, internal; try discriminate; split; reflexivity.
+    + rewrite try_pack_c_msg. split; [reflexivity|]. split; [intros m' E; injection E; auto|].
+      split; [discriminate|apply try_pack_c_keeps_inv; exact H].
+  - cbn [fst snd wire_form]. split; [reflexivity|]. split; [intros m' E; injection E; auto|].
+    split; [discriminate|exact H].
+Qed.
+
+Lemma fingerprint_is_hash_of_libpack_l : forall (D : Type) (H : buf -> D) st m, Inv_c st ->
+  fst (fingerprint_c H st m) = fp_of_lib H (fst (lib_pack_c (sealed_view m))) /\
+  Inv_c (snd (fingerprint_c H st m)).
+Proof.
+  intros D H st m HI. unfold fingerprint_c.
+  destruct (tp_bytes name body dict (try_pack_c st (sealed_view m))) as [b|] eqn:Hb; cbn [fst snd].
+  - destruct (concrete_trypack_is_libpack_l st (sealed_view m) b HI Hb) as (m' & Hl).
+    rewrite Hl. cbn [fst fp_of_lib]. split; [reflexivity|apply try_pack_c_keeps_inv; exact HI].
+  - rewrite try_pack_c_msg. split; [reflexivity|apply try_pack_c_keeps_inv; exact HI].
+Qed.
+
+Lemma fingerprint_pool_independent_l : forall (D : Type) (H : buf -> D) st1 st2 m, Inv_c st1 -> Inv_c st2 ->
+  fst (fingerprint_c H st1 m) = fst (fingerprint_c H st2 m).
+Proof.
+  intros D H st1 st2 m H1 H2.
+  rewrite (proj1 (fingerprint_is_hash_of_libpack_l D H st1 m H1)), (proj1 (fingerprint_is_hash_of_libpack_l D H st2 m H2)).
+  reflexivity.
+Qed.
+
+(* non-vacuity: the signed reply above leaves a direct writer as raw bytes; its authority section
+   (empty here) seals to the twelve header octets *)
+Lemma consumers_witness :
+  (exists b, fst (write_msg_c true false dirty_state wc_msg) = SentBytes b /\ fst (lib_pack_c wc_msg) = LOk b) /\
+  (exists m', fst (write_msg_c true true dirty_state wc_msg) = SentMsg m') /\
+  fst (fingerprint_c (fun b => b) dirty_state wc_msg) = FpSum [0;0;0;0;0;0;0;0;0;0;0;0]%N.
+Proof. vm_compute. split; [eexists; split; reflexivity|]. split; [eexists; reflexivity|reflexivity]. Qed.
